@@ -251,5 +251,11 @@ def r6(ctx):
     ctx.check('handle_timer|stores-identifier', ok, 'current_request_identifier written with %s' % [v[:120] for _, v in ws], sample=len(ws))
 
 
-RULES = [r1, r2, r3, r4, r5, r6]
-FLOORS = {'C07-R1': 8, 'C07-R2': 6, 'C07-R3': 8, 'C07-R4': 10, 'C07-R5': 3, 'C07-R6': 11}
+def r7(ctx):
+    # a replayed copy of an accepted answer must find no pending request: the identifier is consumed before the measurement is handed over
+    from rules import C08
+    C08.r2(ctx)
+
+
+RULES = [r1, r2, r3, r4, r5, r6, r7]
+FLOORS = {'C07-R1': 8, 'C07-R2': 6, 'C07-R3': 8, 'C07-R4': 10, 'C07-R5': 3, 'C07-R6': 11, 'C08-R2': 6}
